@@ -390,8 +390,26 @@ func prefixOf(a, b []int) bool {
 }
 
 // the property oracle, evaluated at every settled point.  Written from the property text.
+// qlen is q.Len() guarded against a queue operation that returned with the mutex still locked
+func (e *exec) qlen() int {
+	ch := make(chan int, 1)
+	go func() { ch <- e.q.Len() }()
+	select {
+	case v := <-ch:
+		return v
+	case <-time.After(3 * time.Second):
+		if e.res.hang == "" {
+			e.res.hang = "queue mutex held: Len() did not return within 3 s although every worker is parked (a queue operation returned with the mutex locked)"
+		}
+		return -1
+	}
+}
+
 func (e *exec) oracle() {
-	L := e.q.Len()
+	L := e.qlen()
+	if L < 0 {
+		return
+	}
 	if L > e.res.maxLen {
 		e.res.maxLen = L
 	}
@@ -468,7 +486,7 @@ func (e *exec) choices() []string {
 
 func (e *exec) observe() []int {
 	return []int{e.rc.p.status, len(e.cfg.Prog) - e.pStarted, e.rc.c.status, e.cfg.Pulls - e.pullsOK,
-		e.q.Len(), e.pullsOK, 0}
+		e.qlen(), e.pullsOK, 0}
 }
 
 func (e *exec) do(k string) {
@@ -602,6 +620,9 @@ func execute(cfg config, prefix []int, forced []string, mod bool) *execResult {
 			break
 		}
 		e.oracle()
+		if res.hang != "" {
+			break
+		}
 		res.obs = append(res.obs, e.observe())
 	}
 
@@ -880,6 +901,9 @@ func main() {
 		progDefs[n] = coqfmt.List(sp)
 	}
 	record := func(cfg config, r *execResult) {
+		if r.hang == "skipped" {
+			return
+		}
 		evaluations++
 		var ds []string
 		for _, d := range r.decisions {
@@ -985,7 +1009,14 @@ func main() {
 	}
 
 	// a hang is reported only if it reproduces three times
+	hangFails := 0
 	runChecked := func(cfg config, prefix []int, forced []string, mod bool) *execResult {
+		if hangFails >= 3 {
+			// three reproducible hangs have been reported: every further execution would cost the
+			// watchdog's timeouts again; the rest of the enumeration is skipped
+			dist["watchdog:skipped-after-3-hangs"]++
+			return &execResult{hang: "skipped"}
+		}
 		r := execute(cfg, prefix, forced, mod)
 		if r.hang == "" || strings.HasPrefix(r.hang, "replay:") {
 			if r.hang != "" {
@@ -1008,6 +1039,7 @@ func main() {
 		in, _ := json.Marshal(runInput{Config: cfg, Decisions: ds})
 		f := failure{Signature: "C20:hang", What: "goroutines neither returned nor parked at a known point (3 reproductions): " + first, Input: in, steps: len(ds)}
 		r.fails = append(r.fails, f)
+		hangFails++
 		return r
 	}
 
